@@ -233,6 +233,70 @@ def Statement_path_pattern_graph : Prop :=
     (cgContains cfg m tq).2 =
       !(((cgContains cfg m tq).1.triples tq.pat (cgPathGraphContains cfg tq)).map (·.1)).isEmpty
 
+/-- the graphs whose *registry entry* (being listed by `graphs()` / `contexts()`) an operation
+    may change -/
+def Op.regTargets (cfg : Cfg) : Op → List Key
+  | .add _ g => (g.getD .none).key.getD cfg.dflt :: (g.getD .none).adds.map (·.2)
+  | .addN qs => qs.filterMap (·.2.key)
+  | .remove tq => tq.garg.adds.map (·.2)
+  | .graph g => g.key.toList ++ g.adds.map (·.2)
+  | .removeGraph k => [k]
+  | .removeContext _ => []
+  | .vadd k _ => [k]
+  | .vremove _ _ => []
+  | .triples tq c => tq.garg.adds.map (·.2) ++ c.adds.map (·.2)
+  | .contains tq => tq.garg.adds.map (·.2)
+  | .quads tq => tq.garg.adds.map (·.2)
+  | .graphs => []
+  | .choices c => c.adds.map (·.2)
+
+/-- ⊢ Registry isolation.  Step: an operation addressed to graph `g` changes the registry entry
+    (listing by `graphs()`, and registration in the store apart from the lazily re-created default
+    graph) of no other graph — removals never unregister, `remove_graph` unregisters only its graph.
+    History: a graph that no operation of a history addresses keeps its triple set and its
+    listing over the whole history. -/
+def Statement_registry_isolation : Prop :=
+  (∀ (cfg : Cfg) (m : Mem) (op : Op) (h : Key), h ∉ op.regTargets cfg →
+      ((h ∈ (cgGraphs cfg (step cfg m op)).2 ↔ h ∈ (cgGraphs cfg m).2) ∧
+       (h ≠ cfg.dflt → (h ∈ (step cfg m op).allc ↔ h ∈ m.allc)))) ∧
+  (∀ (cfg : Cfg) (m : Mem) (ops : List Op) (h : Key),
+      (∀ op ∈ ops, ∃ ks, op.targets cfg = some ks ∧ h ∉ ks) → (∀ op ∈ ops, h ∉ op.regTargets cfg) →
+      ((∀ t, content (run cfg m ops) h t ↔ content m h t) ∧
+       (h ∈ (cgGraphs cfg (run cfg m ops)).2 ↔ h ∈ (cgGraphs cfg m).2)))
+
+/-- ⊢ After every history (switches of `default_union` included) the merged view is the union of
+    the *listed* graphs: a read without a graph under `default_union` yields exactly the triples
+    of the graphs `graphs()` lists (the default graph's otherwise); every quad of `quads()` /
+    `__iter__` names a listed graph; `len()` is the number of distinct triples of the merged view
+    whatever `default_union` is. -/
+def Statement_union_of_registered_graphs : Prop :=
+  ∀ (cfg : Cfg) (sops : List SOp),
+    let s := runS (cfg, Mem.empty) sops
+    (∀ pat t, t ∈ obsTriples s.1 s.2 pat none ↔
+        pat.matches t = true ∧
+          (if s.1.du = true then ∃ k, k ∈ (cgGraphs s.1 s.2).2 ∧ content s.2 k t else content s.2 s.1.dflt t)) ∧
+    (∀ q, q ∈ obsQuads s.2 TPat.all none → q.2 ∈ (cgGraphs s.1 s.2).2) ∧
+    (dsIter s.1 s.2).2 = obsQuads s.2 TPat.all none ∧
+    cgLen s.2 = (obsTriples { s.1 with du := true } s.2 TPat.all none).length ∧
+    (∀ k, vLen s.2 k = (vTriples s.2 k TPat.all).length)
+
+def Spec.stepS (cfg : Cfg) (σ : Spec) : SOp → Spec
+  | .op o => σ.step cfg o
+  | .setUnion _ => σ
+
+def Spec.runS (cfg : Cfg) (σ : Spec) (ops : List SOp) : Spec := ops.foldl (Spec.stepS cfg) σ
+
+/-- ⊢ Switching `default_union` at run time changes nothing in the store (no graph's triple set,
+    no listing, not `quads()`, not `len()`), and after any history with switches anywhere every
+    observable is the one the mapping prescribes under the *current* value of the switch: the
+    specification ignores the switches altogether. -/
+def Statement_default_union_switch : Prop :=
+  (∀ (s : Cfg × Mem) (b : Bool), (stepS s (.setUnion b)).2 = s.2 ∧ (stepS s (.setUnion b)).1.du = b ∧
+      (stepS s (.setUnion b)).1.dflt = s.1.dflt ∧ (stepS s (.setUnion b)).1.isDs = s.1.isDs) ∧
+  (∀ (cfg : Cfg) (sops : List SOp),
+      Agree (runS (cfg, Mem.empty) sops).1 (runS (cfg, Mem.empty) sops).2
+        (Spec.runS cfg (Spec.init cfg) sops))
+
 /-! ### Simulation -/
 
 structure Sim (cfg : Cfg) (m : Mem) (σ : Spec) : Prop where
@@ -895,6 +959,209 @@ theorem path_pattern_graph : Statement_path_pattern_graph := by
     rw [pickCtx_key, asView_key, spocKey_nodefault, spocKey_nodefault]
     cases tq.garg.key <;> rfl
 
+/-! ### registry isolation, union of the listed graphs, `default_union` switch -/
+
+/-- `h` is listed by `graphs()` in `m'` iff it is in `m` -/
+def RegSame (cfg : Cfg) (h : Key) (m m' : Mem) : Prop :=
+  (h ∈ (cgGraphs cfg m').2 ↔ h ∈ (cgGraphs cfg m).2) ∧ (h ≠ cfg.dflt → (h ∈ m'.allc ↔ h ∈ m.allc))
+
+theorem regSame_of_allc {cfg : Cfg} {h : Key} {m m' : Mem}
+    (e : h ≠ cfg.dflt → (h ∈ m'.allc ↔ h ∈ m.allc))
+    (ed : cfg.isDs = false → (h ∈ m'.allc ↔ h ∈ m.allc)) : RegSame cfg h m m' := by
+  refine ⟨?_, e⟩
+  simp only [cgGraphs, mem_touch_allc]
+  by_cases hd : h = cfg.dflt
+  · by_cases hi : cfg.isDs = true
+    · simp [hd, hi]
+    · have hi' : cfg.isDs = false := by cases h' : cfg.isDs <;> simp_all
+      rw [ed hi']
+  · rw [e hd]
+
+theorem RegSame.refl (cfg : Cfg) (h : Key) (m : Mem) : RegSame cfg h m m := ⟨Iff.rfl, fun _ => Iff.rfl⟩
+
+theorem RegSame.trans {cfg : Cfg} {h : Key} {m m' m'' : Mem} (a : RegSame cfg h m m')
+    (b : RegSame cfg h m' m'') : RegSame cfg h m m'' :=
+  ⟨b.1.trans a.1, fun hd => (b.2 hd).trans (a.2 hd)⟩
+
+theorem regSame_graphEff {cfg : Cfg} {h : Key} (m : Mem) {g : GArg} (hh : h ∉ g.adds.map (·.2)) :
+    RegSame cfg h m (graphEff cfg m g) := by
+  have hn : ¬ ∃ t, (t, h) ∈ g.adds := fun ⟨t, ht⟩ => not_mem_adds hh ht
+  apply regSame_of_allc
+  · intro hd
+    rw [mem_graphEff_allc]
+    simp [hd, hn]
+  · intro hi
+    rw [mem_graphEff_allc]
+    simp [hi, hn]
+
+theorem regSame_add {cfg : Cfg} {h : Key} (m : Mem) (t : Triple) {k : Key} (hk : h ≠ k) :
+    RegSame cfg h m (m.add t k) := by
+  apply regSame_of_allc <;> intro _ <;> simp [Mem.add, mem_sinsert, hk]
+
+theorem regSame_addGraph {cfg : Cfg} {h : Key} (m : Mem) {k : Key} (hk : h ≠ k) :
+    RegSame cfg h m (m.addGraph k) := by
+  apply regSame_of_allc <;> intro _ <;> simp [Mem.addGraph, mem_sinsert, hk]
+
+theorem regSame_remove {cfg : Cfg} {h : Key} (m : Mem) (pat : TPat) (ctx : Option Key) :
+    RegSame cfg h m (m.remove pat ctx) := by
+  apply regSame_of_allc <;> intro _ <;> rfl
+
+theorem regSame_touch {cfg : Cfg} {h : Key} (m : Mem) : RegSame cfg h m (touch cfg m) := by
+  apply regSame_of_allc
+  · intro hd; rw [mem_touch_allc]; simp [hd]
+  · intro hi; rw [mem_touch_allc]; simp [hi]
+
+theorem regSame_addN {cfg : Cfg} {h : Key} (qs : List (Triple × GArg)) :
+    ∀ (m : Mem), h ∉ qs.filterMap (·.2.key) → RegSame cfg h m (cgAddN cfg m qs).1 := by
+  induction qs with
+  | nil => intro m _; exact RegSame.refl _ _ _
+  | cons x r ih =>
+    intro m hh
+    obtain ⟨t0, g⟩ := x
+    simp only [cgAddN]
+    cases hk : g.key with
+    | none =>
+      refine regSame_graphEff m ?_
+      rw [adds_nil_of_key_none hk]; simp
+    | some k =>
+      simp only [List.filterMap_cons, hk, List.mem_cons, not_or] at hh
+      have hg : h ∉ g.adds.map (·.2) := by
+        intro hm
+        obtain ⟨q, hq, e⟩ := List.mem_map.mp hm
+        have := adds_key hq
+        rw [hk] at this; injection this with this
+        exact hh.1 (by rw [← e, this])
+      exact ((regSame_graphEff m hg).trans (regSame_add _ t0 hh.1)).trans (ih _ hh.2)
+
+theorem regSame_step {cfg : Cfg} {m : Mem} {op : Op} {h : Key} (hh : h ∉ op.regTargets cfg) :
+    RegSame cfg h m (step cfg m op) := by
+  cases op with
+  | add t0 g =>
+    simp only [Op.regTargets, List.mem_cons, not_or] at hh
+    have e : step cfg m (.add t0 g) = (graphEff cfg m (g.getD .none)).add t0 ((g.getD .none).key.getD cfg.dflt) := by
+      cases g with
+      | none => rfl
+      | some g => simp only [step, cgAdd, spocKey_default, TQ.garg, Option.getD, spocEff]
+    rw [e]
+    exact (regSame_graphEff m hh.2).trans (regSame_add _ t0 hh.1)
+  | addN qs => exact regSame_addN qs m hh
+  | remove tq =>
+    simp only [step, cgRemove, spocEff_eq]
+    exact (regSame_graphEff m hh).trans (regSame_remove _ _ _)
+  | graph g =>
+    simp only [Op.regTargets, List.mem_append, not_or] at hh
+    simp only [step, dsGraph]
+    split
+    · cases hk : g.key with
+      | none => exact RegSame.refl _ _ _
+      | some k =>
+        have : h ≠ k := by
+          intro e; apply hh.1; rw [hk]; simp [e]
+        exact (regSame_graphEff m hh.2).trans (regSame_addGraph _ this)
+    · exact RegSame.refl _ _ _
+  | removeGraph k =>
+    simp only [Op.regTargets, List.mem_singleton] at hh
+    simp only [step, dsRemoveGraph]
+    split
+    · have h1 : RegSame cfg h m (m.removeGraph k) := by
+        apply regSame_of_allc <;> intro _ <;> simp [Mem.removeGraph, mem_sremove, hh]
+      split
+      · next e => exact h1.trans (regSame_addGraph _ (by rw [← e]; exact hh))
+      · exact h1
+    · exact RegSame.refl _ _ _
+  | removeContext k => exact regSame_remove _ _ _
+  | vadd k t0 =>
+    simp only [Op.regTargets, List.mem_singleton] at hh
+    exact regSame_add m t0 hh
+  | vremove k p => exact regSame_remove _ _ _
+  | triples tq c =>
+    simp only [Op.regTargets, List.mem_append, not_or] at hh
+    simp only [step, cgTriples, spocEff_eq]
+    exact (regSame_graphEff m hh.1).trans (regSame_graphEff _ (by rw [pickCtx_adds]; exact hh.2))
+  | contains tq =>
+    have e : step cfg m (.contains tq) =
+        graphEff cfg (graphEff cfg m tq.garg) (pickCtx (asView (spocKey cfg tq false)) none) := by
+      simp only [step, cgContains, cgTriples, spocEff_eq]
+      rfl
+    rw [e]
+    exact (regSame_graphEff m hh).trans (regSame_graphEff _ (by rw [pickCtx_adds, asView_adds]; simp))
+  | quads tq =>
+    simp only [step, cgQuads, spocEff_eq]
+    exact regSame_graphEff m hh
+  | graphs => exact regSame_touch m
+  | choices c => exact regSame_graphEff m hh
+
+theorem registry_isolation : Statement_registry_isolation := by
+  refine ⟨fun cfg m op h hh => regSame_step hh, ?_⟩
+  intro cfg m ops
+  induction ops generalizing m with
+  | nil => intro h _ _; exact ⟨fun _ => Iff.rfl, Iff.rfl⟩
+  | cons op ops ih =>
+    intro h h1 h2
+    obtain ⟨ks, hks, hk⟩ := h1 op List.mem_cons_self
+    have a := isolation cfg m op ks hks h hk
+    have b := (regSame_step (m := m) (h2 op List.mem_cons_self)).1
+    have c := ih (step cfg m op) h (fun o ho => h1 o (List.mem_cons_of_mem _ ho))
+      (fun o ho => h2 o (List.mem_cons_of_mem _ ho))
+    exact ⟨fun t => (c.1 t).trans (a t), c.2.trans b⟩
+
+theorem specStep_congr {c c' : Cfg} (h1 : c.isDs = c'.isDs) (h2 : c.dflt = c'.dflt) (σ : Spec) (o : Op) :
+    σ.step c o = σ.step c' o := by
+  cases o <;> simp only [Spec.step, Spec.removeGraph, h1, h2]
+
+theorem Sim.congr {c c' : Cfg} {m : Mem} {σ : Spec} (h1 : c.isDs = c'.isDs) (h2 : c.dflt = c'.dflt)
+    (h : Sim c m σ) : Sim c' m σ :=
+  ⟨h.has, by intro k; rw [h.known, h1, h2], h.wf⟩
+
+theorem sim_runS {cfg : Cfg} (sops : List SOp) :
+    ∀ {s : Cfg × Mem} {σ : Spec}, s.1.isDs = cfg.isDs → s.1.dflt = cfg.dflt → Sim s.1 s.2 σ →
+      (runS s sops).1.isDs = cfg.isDs ∧ (runS s sops).1.dflt = cfg.dflt ∧
+      Sim (runS s sops).1 (runS s sops).2 (σ.runS cfg sops) := by
+  induction sops with
+  | nil => intro s σ h1 h2 h; exact ⟨h1, h2, h⟩
+  | cons o r ih =>
+    intro s σ h1 h2 h
+    cases o with
+    | op o =>
+      have := sim_step h o
+      rw [specStep_congr h1 h2] at this
+      exact ih (s := (s.1, step s.1 s.2 o)) h1 h2 this
+    | setUnion b =>
+      exact ih (s := ({ s.1 with du := b }, s.2)) h1 h2
+        (Sim.congr (c := s.1) (c' := { s.1 with du := b }) rfl rfl h)
+
+theorem default_union_switch : Statement_default_union_switch :=
+  ⟨fun _ _ => ⟨rfl, rfl, rfl, rfl⟩,
+   fun cfg sops => agree_of_sim (sim_runS sops (s := (cfg, Mem.empty)) rfl rfl (sim_init cfg)).2.2⟩
+
+theorem union_of_registered_graphs : Statement_union_of_registered_graphs := by
+  intro cfg sops
+  simp only
+  have hs := (sim_runS sops (s := (cfg, Mem.empty)) rfl rfl (sim_init cfg)).2.2
+  generalize runS (cfg, Mem.empty) sops = s at hs
+  have wf := hs.wf
+  refine ⟨?_, ?_, ?_, ?_, fun _ => ?_⟩
+  · intro pat t
+    rw [(union_view s.1 s.2 pat).1 t]
+    refine and_congr_right (fun _ => ?_)
+    by_cases hdu : s.1.du = true
+    · simp only [hdu, if_true]
+      constructor
+      · rintro ⟨k, hk⟩
+        refine ⟨k, ?_, hk⟩
+        simp only [cgGraphs, mem_touch_allc]
+        exact Or.inl (wf.reg _ (content_iff.mp hk))
+      · rintro ⟨k, _, hk⟩; exact ⟨k, hk⟩
+    · simp only [hdu, if_false, Bool.false_eq_true]
+  · intro q hq
+    have := (mem_quads_of_triples.mp hq).1
+    simp only [cgGraphs, mem_touch_allc]
+    exact Or.inl (wf.reg _ this)
+  · simp only [dsIter, cgQuads, obsQuads]
+    rfl
+  · simp only [cgLen, Mem.len, obsTriples, triples_fst_eq, resolveCtx_none, if_true]
+  · simp only [vLen, Mem.len, vTriples, triples_fst_eq]
+
 /-! ### Non-vacuity: a concrete history (two graphs sharing a triple, a created-but-empty
     graph 95, an unknown graph 94, removals) on which the hypotheses above are met -/
 
@@ -915,6 +1182,18 @@ example : (cgTriples exDs (run exDs Mem.empty exOps) .nil .none).2 = [(1, 10, 20
 example : (cgTriples exDu (run exDu Mem.empty exOps) .nil .none).2 = [(1, 10, 20), (2, 10, 21)] := by decide
 example : (cgTriples exDu (run exDu Mem.empty exOps) .nil (.view 95)).2 = [] := by decide
 example : WF (run exDs Mem.empty exOps) := ⟨by decide, by decide, by decide⟩
+-- a history with switches of default_union: graph 93 is addressed by no operation (isolation over the
+-- history), the merged view after the switch is the union of the listed graphs, len counts it
+def exSOps : List SOp :=
+  (exOps.map SOp.op) ++ [.setUnion true, .op (.vadd 93 (7, 7, 7)), .setUnion false, .op (.remove (.tri (some 7, none, none))),
+    .setUnion true]
+example : (runS (exDs, Mem.empty) exSOps).1.du = true ∧
+    (runS (exDs, Mem.empty) exSOps).2.qs = [((1, 10, 20), 99), ((1, 10, 20), 91), ((2, 10, 21), 91)] ∧
+    (cgGraphs (runS (exDs, Mem.empty) exSOps).1 (runS (exDs, Mem.empty) exSOps).2).2 = [95, 99, 90, 91, 93] ∧
+    cgLen (runS (exDs, Mem.empty) exSOps).2 = 2 ∧
+    (cgTriples (runS (exDs, Mem.empty) exSOps).1 (runS (exDs, Mem.empty) exSOps).2 .nil .none).2 = [(1, 10, 20), (2, 10, 21)] := by
+  decide
+example : ∀ op ∈ exOps, (∃ ks, op.targets exDs = some ks ∧ 93 ∉ ks) ∧ 93 ∉ op.regTargets exDs := by decide
 -- triples_choices: predicate list [10, 11]; the empty graph 95 yields nothing, no graph = default / union
 example : (cgTriplesChoices exDs (run exDs Mem.empty exOps) (.pred none [10, 11] none) (.view 95)).2 = [] := by decide
 example : (cgTriplesChoices exDs (run exDs Mem.empty exOps) (.pred none [10, 11] none) .none).2 = [(1, 10, 20)] := by decide
